@@ -29,11 +29,24 @@ def main():
     ap = argparse.ArgumentParser()
     ap.add_argument("--jobs", type=int, default=4)
     ap.add_argument("--seeds", default="0,1")
+    ap.add_argument("--exclude-props", default="")
+    ap.add_argument("--only-props", default="")
     ap.add_argument("prefixes", nargs="*")
     a = ap.parse_args()
     ids = sorted(x for x in os.listdir(os.path.join(VERIF, "seeded")) if os.path.isdir(os.path.join(VERIF, "seeded", x)))
     if a.prefixes:
         ids = [x for x in ids if any(x.startswith(p) for p in a.prefixes)]
+    def props_of(sid):
+        meta = json.load(open(os.path.join(VERIF, "seeded", sid, "meta.json")))
+        v = meta.get("verified", {})
+        return {meta["property"]} | set(v.get("caught_by", [])) | set((v.get("checks") or {}).keys())
+    if a.exclude_props:
+        ex_ = set(a.exclude_props.split(","))
+        ids = [x for x in ids if not (props_of(x) & ex_)]
+    if a.only_props:
+        on_ = set(a.only_props.split(","))
+        ids = [x for x in ids if props_of(x) & on_]
+    print("re-evaluating %d seeded changes" % len(ids), flush=True)
     with ThreadPoolExecutor(a.jobs) as ex:
         for sid, ok, caught in ex.map(one, [(i, a.seeds) for i in ids]):
             print(sid, "confirmed" if ok else "NOT-CONFIRMED", caught, flush=True)
